@@ -61,7 +61,7 @@ EP = {
  "C07": ("Coq theorems per handler for ALL states and frames: server/client Connect soundness (nonce echo while pending), forged / stale / duplicated handshake frames are the identity (an ACK or SYN+ACK reaching an established connection only moves its deadline), refusals carry the matching error and echo the SYN's nonce, both sides derive sequence numbers and limits symmetrically; and over WHOLE histories of the Client and Server models: Connect is reported only in a step whose datagrams include the SYN+ACK echoing the client's nonce, resp. — from that very address — an ACK carrying a nonce the server has sent to it in a SYN+ACK (C07_client_connect_history, C07_server_connect_history). Tied by forge/lifecycle/limits streams (raw peers forging every frame with chosen nonces at any point). Nonce guessing is outside the logic.", "DESIGN.md §5 C07"),
  "C08": ("Coq theorem over ALL client operation sequences: the whole event log is accepted by the automaton Connect? Receive* (Disconnect|Error)? with nothing after the end (induction over steps, per-handler grammar lemmas); and over ALL server operation sequences (C08_server_event_stream_wellformed): for every address the events about it, with the application's drop calls interleaved, are accepted by Idle -Connect-> Conn -Receive*-> Conn -Disconnect|Error|drop-> Idle (invariant over the address table and object states). The same grammar is checked on the implementation by the grammar oracle on lifecycle/forge/limits streams.", "DESIGN.md §5 C08"),
  "C09": ("Coq theorems: a flushing disconnect only becomes a disconnect request when send queue, pending queue and resend queue are empty; the receiving side delivers everything it holds before reporting Disconnect; retry budget constants (11 x 2 s = 22 s). End-to-end ordering and the time bound are decided by the flush-order oracle on the lifecycle stream and by correspondence under the virtual clock: PARTIAL.", "DESIGN.md §5 C09"),
- "C10": ("Coq theorems on the client model over whole histories (TimeoutHistory.v; any datagrams, any non-decreasing clock, flushes, sends, disconnect calls): Error(Timeout) from the handshake no earlier than 22 s after connect() and after exactly ten resends; from an established connection only if every step that brought a data/sync/ack frame and the Connect step lie at least active_timeout_ms back, the deadline being exactly active_timeout_ms after a step with a frame from the server and a silent step at or past it reporting the timeout; while disconnecting no earlier than 22 s after the step that first sent Disconnect; in no other phase. Plus the exact per-step timer semantics. Server timers and keepalive sufficiency over histories are decided by the timers/lifecycle streams with the timeout oracles and by correspondence: PARTIAL.", "DESIGN.md §5 C10"),
+ "C10": ("Coq theorems on the client model over whole histories (TimeoutHistory.v; any datagrams, any non-decreasing clock, flushes, sends, disconnect calls): Error(Timeout) from the handshake no earlier than 22 s after connect() and after exactly ten resends; from an established connection only if every step that brought a data/sync/ack frame and the Connect step lie at least active_timeout_ms back, the deadline being exactly active_timeout_ms after a step with a frame from the server and a silent step at or past it reporting the timeout; while disconnecting no earlier than 22 s after the step that first sent Disconnect; in no other phase. Plus the exact per-step timer semantics. Server over whole histories (ServerTimeouts.v): handshake and disconnect attempts are given up no earlier than 22 s after they began and never while resends are left (invariant on the timer heap with ghost start times). The server's active-timeout rule and keepalive sufficiency over histories are decided by the timers/lifecycle streams with the timeout oracles and by correspondence: PARTIAL.", "DESIGN.md §5 C10"),
 }
 for k, (text, ref) in EP.items():
     CLAIMED[k] = dict(text=text, note=TRUST + " Endpoints are driven over real loopback UDP sockets; socket errors are not modelled (the code ignores them).", technique="Coq proof (invariants / per-handler theorems on the Client and Server models) + model/implementation differential run over real sockets + property oracle", design=ref)
